@@ -876,6 +876,31 @@ struct Partial {
     build: Vec<Identifier>,
 }
 
+impl Partial {
+    // A wildcard (or missing) component makes everything after it a wildcard
+    // too: `1.x.3` is `1.x`, and `1.2.x-beta` is `1.2.x`.
+    fn normalize(self) -> Self {
+        let minor = if self.major.is_some() {
+            self.minor
+        } else {
+            None
+        };
+        let patch = if minor.is_some() { self.patch } else { None };
+        let (pre_release, build) = if patch.is_some() {
+            (self.pre_release, self.build)
+        } else {
+            (vec![], vec![])
+        };
+        Partial {
+            major: self.major,
+            minor,
+            patch,
+            pre_release,
+            build,
+        }
+    }
+}
+
 impl From<Partial> for Version {
     fn from(partial: Partial) -> Self {
         Version {
@@ -909,7 +934,8 @@ fn partial_version<'s>(input: &mut &'s str) -> PResult<Partial, SemverParseError
         patch: patch.flatten(),
         pre_release: pre,
         build,
-    })
+    }
+    .normalize())
 }
 
 fn component<'s>(input: &mut &'s str) -> PResult<Option<u64>, SemverParseError<&'s str>> {
